@@ -180,6 +180,7 @@ func runC04(c *Ctx) {
 	c04Extra(c)
 	c04NormaliseTotal(c)
 	c04NilOutSameSide(c)
+	c03SubsetByPair(c, "SUBSET-BY-PAIR")
 }
 
 // triEvalBool evaluates a boolean expression with the given identifiers bound to constants.
